@@ -65,7 +65,7 @@ pub fn classes(e: &EnumSpec) -> Vec<String> {
                 if v.default_with() {
                     c.push("EnumString:default_with-variant".into());
                 }
-                if v.fields.iter().any(|f| f.default_with) {
+                if v.kind == vmodel::spec::Kind::Named && v.fields.iter().any(|f| f.default_with) {
                     c.push("EnumString:default_with-field".into());
                 }
             }
